@@ -58,7 +58,7 @@ chk.extra['rule'] = ('graph pairs: exhaustive small graphs (graph atlas, random 
                      '(>= 1 isomorphism / common subgraph of >= 2 nodes was found or |Aut(pattern)| > 1); '
                      'distinct = distinct protocol line')
 chk.trusted.append('harness/c06.py: graph encoding, canonicalisation of mappings, Python brute-force oracle')
-chk.lean(['VermouthProps.C06', 'VermouthProps.C06_Ismags'], 'driver_c06')
+chk.lean(['VermouthProps.C06', 'VermouthProps.C06_Ismags', 'VermouthProps.C06_IsmagsLcs'], 'driver_c06')
 
 import networkx as nx
 from vermouth.ismags import ISMAGS
